@@ -22,7 +22,13 @@ pub(crate) use me_code::*;
 pub fn get_message(squitter: &str) -> Option<Vec<u32>> {
     clean_squitter(squitter)
         .filter(|message| matches!(message.len(), 14 | 28))
+        .filter(|message| length_matches_format(message))
         .filter(|message| reminder(message) == 0)
+}
+
+/// Downlink formats 0-15 are 56-bit frames, formats 16-31 are 112-bit frames.
+fn length_matches_format(message: &[u32]) -> bool {
+    range_value(message, 1, 5).is_some_and(|df| (df < 16) == (message.len() == 14))
 }
 
 pub(crate) fn get_hex_message(message: &[u32]) -> String {
